@@ -1,4 +1,5 @@
 import Syzgy.Lemmas.Crc
+import Syzgy.Lemmas.Dead
 import Syzgy.Lemmas.Scan
 /-!
 # C08 — no silent corruption
@@ -93,5 +94,32 @@ theorem bad_magic_rejected (file : Bytes) (h4 : 4 ≤ file.length)
   unfold openFile
   have hlt : ¬ (file.length < 4) := by omega
   cases mode <;> simp_all <;> (split <;> exact ⟨_, rfl⟩)
+
+
+/-- **Damage confined to one record's payload or checksum loses at most that document.** In a file of
+    well-formed segments with distinct ids, replace the bytes of one active span by any image of the same
+    length with intact magic and length field whose checksum fails. Opening succeeds in every mode and
+    stores nothing; the damaged record is "not found"; every other record reads back exactly the
+    streams written for it; an id never written stays "not found" (nothing is fabricated). -/
+theorem payload_damage_loses_only_that_record (A B : List Seg) (seq : Nat) (rid : Bytes) (st : List Stream) (pad : Nat)
+    (hok : ∀ s ∈ A ++ .act seq rid st pad :: B, s.OK) (hnd : (actRids (A ++ .act seq rid st pad :: B)).Nodup)
+    (d : Bytes) (hd : Damaged d) (hlen : d.length = (Seg.act seq rid st pad).size) (ro : Bool) :
+    ∃ s', scanFile (render A ++ (d ++ render B)) ro = .ok s' ∧ s'.file = render A ++ (d ++ render B) ∧
+      readRecord s' rid = .err "record not found" ∧
+      (∀ r st', r ≠ rid → docOf r (A ++ .act seq rid st pad :: B) = some st' →
+        ∃ sp, readRecord s' r = .ok sp ∧ sp.rid = r ∧ sp.streams = st') ∧
+      (∀ r, docOf r (A ++ .act seq rid st pad :: B) = none → readRecord s' r = .err "record not found") :=
+  damaged_record_only A B seq rid st pad hok hnd d hd hlen ro
+
+/-- every burst of up to 32 bits in the payload or padding of a span produces such a damaged image
+    (the hypothesis `Damaged` of the theorem above), for every record and every burst position -/
+theorem payload_burst_is_damage (seq : Nat) (rid : Bytes) (st : List Stream) (pad : Nat)
+    (hs : (Seg.act seq rid st pad).OK) (e' : Bytes) (hlen : e'.length = (spanBody seq rid st).length + pad)
+    (pre post : Nat) (w : List Bool) (hw : w.length ≤ 32) (hne : ∃ b ∈ w, b = true)
+    (he : bitsOf (zeros 8 ++ e') = List.replicate pre false ++ w ++ List.replicate post false) :
+    Damaged (xorBytes (actPre seq rid st pad) (zeros 8 ++ e') ++ be32 (checksum (actPre seq rid st pad))) ∧
+    (xorBytes (actPre seq rid st pad) (zeros 8 ++ e') ++ be32 (checksum (actPre seq rid st pad))).length =
+      (Seg.act seq rid st pad).size :=
+  burst_in_payload_damaged seq rid st pad hs e' hlen pre post w hw hne he
 
 end Syzgy.C08
